@@ -2,7 +2,7 @@
 std::move / std::forward; the stream reader and the byte reader of one type must perform the same validations and
 state assignments modulo the read primitive."""
 import re
-from astu import C, ctxt, gt_pair, eq_const, strip, strip_all, walk, txt, short, stmts_of, functions_by
+from astu import C, ctxt, gt_pair, eq_const, reach, reach_txt, ctext, strip, strip_all, walk, txt, short, stmts_of, functions_by
 from vlib.core import ob
 
 
